@@ -53,6 +53,11 @@ def main(tier, replay):
     jobs.append({'name': 'vacuity-twin', 'pkg': PKG, 'func': 'HarnessRLEVacuity', 'args': [2], 'expect': 'vacuity'})
     c.engine(REPO, [PKG], ov, jobs, ctx=ctx, record=12 if not quick else 0)
 
+    # ---- engine vs native build on concrete pseudo-random sequences (observations: encoder bytes, decoded values)
+    c1 = dict(ctx, dir=REPO, overlay=ov)
+    for w in (1, 2, 3, 4):
+        differential(c, {'name': 'enc-w%d-n40' % w, 'pkg': PKG, 'func': 'HarnessRLEEnc', 'args': [w, 40, 0], 'opt': {'concrete_u8_max': (1 << w) - 1}}, c1, runs=150 if quick else 600)
+        differential(c, {'name': 'dec-w%d' % w, 'pkg': PKG, 'func': 'HarnessRLEDec', 'args': [w, 3, 40, 64, 1, 2, 63, 0]}, c1, runs=60 if quick else 200)
     # ---- glue in package parquet
     jobs2 = []
     for w in (1, 2, 3, 4):
